@@ -1993,12 +1993,11 @@ impl DnsOutgoing {
 
             // create a new packet and reset counts.
             packet = DnsOutPacket::new();
-            packet.write_record(addi.as_ref(), 0);
 
             question_count = 0;
             answer_count = 0;
             auth_count = 0;
-            addi_count = 1;
+            addi_count = u16::from(packet.write_record(addi.as_ref(), 0));
         }
 
         packet.write_header(
